@@ -37,6 +37,7 @@ class FunctionContract:
         self.configure = configure
         self.name = name or qual.split(":")[1]
         self.expect_paths = expect_paths
+        self.runner = None           # callable(I, st, info, ctx) -> results; replaces the plain call
         self.required = False        # True: the function's *name* is part of the spec (missing = refuted)
         self.static_replay = None    # replay script used for every refuted obligation of this contract
         self.static_witness = None
@@ -166,7 +167,11 @@ def verify_function(contract, sources=None, timeout_ms=10000):
     st = State()
     t0 = time.time()
     try:
-        fv, args, kwargs, info = contract.setup(I, st)
+        su = contract.setup(I, st)
+        if contract.runner is not None:
+            fv, args, kwargs, info = None, None, None, su
+        else:
+            fv, args, kwargs, info = su
         # vacuity: the precondition must be satisfiable
         if not I.feasible(st):
             rep["verdicts"].append(Verdict(contract.name + "/requires-satisfiable", "refuted",
@@ -174,9 +179,13 @@ def verify_function(contract, sources=None, timeout_ms=10000):
             return rep
         obligations = []
         ctx = {"module": module, "owner": cname, "selfname": None, "qual": None,
-               "verifying": fv.data.get("qual") if hasattr(fv, "data") else None,
+               "verifying": (fv.data.get("qual") if hasattr(fv, "data") else None) if fv is not None
+               else contract.qual.split(":")[1],
                "loops": contract.loops, "opts": {}, "obligations": obligations}
-        results = I.call(fv, args, kwargs, st, ctx)
+        if contract.runner is not None:
+            results = contract.runner(I, st, info, ctx)
+        else:
+            results = I.call(fv, args, kwargs, st, ctx)
     except OutOfReach as e:
         rep["verdicts"].append(Verdict(contract.name + "/in-subset", "out_of_reach", note=str(e)).to_dict())
         rep["exec_s"] = time.time() - t0
